@@ -80,7 +80,7 @@ class Runtime:
         nd = self.nodes[path]
         if idx in nd["fail_at"] or any(IR.canon(v) in nd["fail_args"] for _, v in args):
             # a quarter of the failures carry NO message (str(exc) == ""), like a bare KeyError() or a failed assert
-            k = (len(path) + idx) % 4 if self.silent_failures else 2
+            k = nd.get("exc_kind", (len(path) + idx) % 4) if self.silent_failures else 2
             exc = (Boom() if k == 0 else FalsyBoom(f"boom at {path}#{idx}") if k == 1 else FrozenBoom(f"boom at {path}#{idx}") if k == 3
                    else Boom(f"boom at {path}#{idx}"))
             self.raised.append((path, idx, exc))
